@@ -5,7 +5,7 @@
    notifies the waiters), detail condition variable, both agent instances). *)
 From Coq Require Import List ZArith Bool.
 From Pika Require Import Base.Conc Base.Agent Model.Semaphore Proofs.SemaphoreProofs Proofs.SemaphoreScenarios
-  Proofs.SemaphoreProgress Proofs.SemaphoreSyncWait Model.SemaphoreMixed Proofs.SemaphoreMixedProofs.
+  Proofs.SemaphoreProgress Proofs.SemaphoreSyncWait Model.SemaphoreMixed Proofs.SemaphoreMixedProofs Proofs.SemaphoreMixedProgress.
 Import ListNotations.
 Local Open Scope Z_scope.
 
@@ -408,3 +408,28 @@ Theorem C08_no_blocked_with_permits_negative_try_wait_refuted :
   released (fst c) = 0 /\ acquired (fst c) = -1 /\ holder (fst c) = None /\ popped (fst c) = [] /\ sigl (fst c) = [].
 Proof. exact no_blocked_with_permits_negative_try_wait_refuted. Qed.
 Print Assumptions C08_no_blocked_with_permits_negative_try_wait_refuted.
+
+(* Progress half for SEVERAL objects with the one shared agent table.  [os_untimed_m]: an OS-thread
+   agent runs no timed acquire on any object (F14).  In every reachable stuck state ([mx_stuck]: every
+   thread has finished or the base step of its current operation on its current object is a stutter,
+   whatever the clock says), for every COUNTING object ob — whatever sliding operations the same
+   threads run on other objects, whatever stale resumes and left-over tokens cross between objects:
+   nobody waits on ob for n permits with value >= n; every thread whose current operation is on ob
+   is blocked in acquire() with value = 0; ob's lock is free, no wake-up of ob is in flight
+   (popped = []), no signal loop of ob is active. *)
+Theorem C08_no_blocked_with_permits_mixed_objects : forall fam kind sched v lo md progs,
+  (forall ob, 0 <= v ob) -> pub_progs_mixed fam progs -> os_untimed_m kind progs ->
+  let c := mx_run kind sched v lo md progs in
+  mx_stuck kind (fst c) (snd c) ->
+  forall ob, fam ob = Counting ->
+  (forall t n, mx_waiting_for (snd c t) ob (CAcq n) -> value (objs (fst c) ob) < n) /\
+  (forall t, cur_obj (snd c t) = Some ob -> mpc (snd c t) = Blk (CAcq 1) /\ blocked (mag (fst c) t) = true /\ value (objs (fst c) ob) = 0) /\
+  holder (objs (fst c) ob) = None /\ popped (objs (fst c) ob) = [] /\ tot (sigl (objs (fst c) ob)) = 0.
+Proof. exact no_blocked_with_permits_mixed. Qed.
+Print Assumptions C08_no_blocked_with_permits_mixed_objects.
+
+Example C08_mixed_progress_example :
+  pub_progs_mixed mx_ex_fam mx_ex_progs /\ os_untimed_m all_task mx_ex_progs /\ mx_ex_fam 0%nat = Counting /\
+  let c := mx_ex_run mx_ex_s3 in
+  mx_stuck all_task (fst c) (snd c) /\ mx_waiting_for (snd c 0%nat) 0%nat (CAcq 1) /\ value (objs (fst c) 0%nat) = 0.
+Proof. exact mixed_progress_example. Qed.
